@@ -754,8 +754,12 @@ Definition T_colset (t : T) : option (N * @smap wop) :=
       end
   | _ => None
   end.
+(* columns are inserted into a HashMap: a repeated column keeps the last entry set *)
 Definition T_changes (t : T) : option changes :=
-  match t with L cs => mapM T_colset cs | _ => None end.
+  match t with
+  | L cs => option_map (fun l => fold_left (fun acc ce => cset (fst ce) (snd ce) acc) l []) (mapM T_colset cs)
+  | _ => None
+  end.
 Definition T_commit (t : T) : option commit :=
   match t with
   | L [h; I 0%Z; L [s]] =>
@@ -850,8 +854,8 @@ Definition T_hobs (t : T) : option hobs :=
   | _ => None
   end.
 
-(* failure class of C12: 2 = the key universe is not prefix-free, 3 = the model's retained
-   heights have a hole at some step, 0 otherwise *)
+(* failure class of C12: 3 = the model's retained heights have a hole at some step, otherwise
+   2 = the key universe is not prefix-free, 0 otherwise *)
 Definition main12 (input observed : T) : T :=
   match input with
   | L [start; p; L ops] =>
@@ -867,8 +871,8 @@ Definition main12 (input observed : T) : T :=
                     end in
           L [model;
              if pc then I 1%Z
-             else if negb (prefix_free (universe ops)) then I 2%Z
              else if negb (run_gap_free start (hinit p) ops) then I 3%Z
+             else if negb (prefix_free (universe ops)) then I 2%Z
              else I 0%Z]
       | _, _, _ => tErr 2
       end
